@@ -1085,6 +1085,8 @@ int vf_main(int argc, char **argv, const char *prop, void (*run)(void),
             rspec = argv[++i];
         else if (!strcmp(argv[i], "--phase") && i + 1 < argc)
             VF.phase = argv[++i];
+        else if (!strcmp(argv[i], "--aux") && i + 1 < argc)
+            VF.aux = argv[++i];
         else
             vf_fatal("unknown argument %s", argv[i]);
     }
